@@ -391,6 +391,15 @@ static bool can_remove_braces(Chunk *bopen)
          return(false);
       }
 
+      if (  pc->TestFlags(PCF_VAR_DEF)
+         && (  language_is_set(lang_flag_e::LANG_C)
+            || language_is_set(lang_flag_e::LANG_OC))
+         && !language_is_set(lang_flag_e::LANG_CPP))
+      {
+         // Cannot remove braces around a declaration in C: 'if (a) int b = 1;' is not valid
+         return(false);
+      }
+
       if (pc->IsNewline())
       {
          nl_count += pc->GetNlCount();
@@ -547,6 +556,16 @@ static void examine_brace(Chunk *bopen)
       {
          // Cannot remove braces that contain a preprocessor
          LOG_FMT(LBRDEL, "%s(%d):  PREPROC\n", __func__, __LINE__);
+         return;
+      }
+
+      if (  pc->TestFlags(PCF_VAR_DEF)
+         && (  language_is_set(lang_flag_e::LANG_C)
+            || language_is_set(lang_flag_e::LANG_OC))
+         && !language_is_set(lang_flag_e::LANG_CPP))
+      {
+         // Cannot remove braces around a declaration in C: 'if (a) int b = 1;' is not valid
+         LOG_FMT(LBRDEL, "%s(%d):  VAR_DEF\n", __func__, __LINE__);
          return;
       }
 
